@@ -10,12 +10,14 @@ import (
 
 	"github.com/go-i2p/common/certificate"
 	"github.com/go-i2p/common/data"
+	"github.com/go-i2p/common/destination"
 	"github.com/go-i2p/common/encrypted_leaseset"
 	"github.com/go-i2p/common/key_certificate"
 	"github.com/go-i2p/common/keys_and_cert"
 	"github.com/go-i2p/common/lease"
 	"github.com/go-i2p/common/lease_set2"
 	"github.com/go-i2p/common/offline_signature"
+	"github.com/go-i2p/common/router_identity"
 	"github.com/go-i2p/common/signature"
 	"pgregory.net/rapid"
 
@@ -25,7 +27,7 @@ import (
 	"verif/internal/model"
 )
 
-const rule = "part 1 (exhaustive): every signing-type code and every crypto-type code 0..65535 through every size lookup (two maps + constants in key_certificate, GetKeySizes/GetSigningKeySize/GetCryptoKeySize/GetSignatureSize, KeyCertificate.{SignatureSize,SigningPublicKeySize,CryptoSize,CryptoPublicKeySize}, signature.SignatureSize, offline_signature.{SigningPublicKeySize,SignatureSize}) plus behavioural probes (LeaseSet2.Validate on a key of that type with right/wrong length, ReadEncryptedLeaseSet and ReadOfflineSignature framing with that type): all answers must agree with each other, and with the specification table for the codes it defines (reserved codes: mutual agreement only). (key certificates for every code are also obtained through NewKeyCertificateWithTypes, the certificate builder and the parser and must declare that code, serialise to it and answer like the tables; the leaseset key validation is probed with the key alone, in second position after an X25519 and after an ElGamal key, and in first position before another key) part 2 (generated): identities of every supported (signing, crypto) pair with arbitrary key, padding and certificate bytes through the parser, the constructor and the two key-type-specific readers (which must accept their own pair and, for whatever else they accept, obey the same layout): key bytes at [0,cs) and [384-ss,384), padding exactly between, declared sizes = lengths of the keys returned. Non-trivial: code known to at least one table, or an identity with non-empty padding; distinct by code / identity bytes."
+const rule = "part 1 (exhaustive): every signing-type code and every crypto-type code 0..65535 through every size lookup (two maps + constants in key_certificate, GetKeySizes/GetSigningKeySize/GetCryptoKeySize/GetSignatureSize, KeyCertificate.{SignatureSize,SigningPublicKeySize,CryptoSize,CryptoPublicKeySize}, signature.SignatureSize, offline_signature.{SigningPublicKeySize,SignatureSize}) plus behavioural probes (LeaseSet2.Validate on a key of that type with right/wrong length, ReadEncryptedLeaseSet and ReadOfflineSignature framing with that type): all answers must agree with each other, and with the specification table for the codes it defines (reserved codes: mutual agreement only). (key certificates for every code are also obtained through NewKeyCertificateWithTypes, the certificate builder and the parser and must declare that code, serialise to it and answer like the tables; the leaseset key validation is probed with the key alone, in second position after an X25519 and after an ElGamal key, and in first position before another key) part 2 (generated): identities of every supported (signing, crypto) pair with arbitrary key, padding and certificate bytes through the parser, ReadDestination / ReadRouterIdentity, the constructor and the two key-type-specific readers (which must accept their own pair and, for whatever else they accept, obey the same layout): key bytes at [0,cs) and [384-ss,384), padding exactly between, declared sizes = lengths of the keys returned. Non-trivial: code known to at least one table, or an identity with non-empty padding; distinct by code / identity bytes."
 
 func TestMain(m *testing.M) { ev.Main(m, "C10", rule) }
 
@@ -467,6 +469,48 @@ func checkLayout(c LayoutCase, r *ev.Rec) error {
 		} else {
 			r.Class("fixed-reader:accepted-other-pair")
 		}
+	}
+	// the destination and router-identity readers: every permitted pair is accepted and lays
+	// its keys out the same way
+	if st, et := id.SigType, id.EncType; st != 8 && et != 5 && et != 6 && et != 7 {
+		d, drem, derr := destination.ReadDestination(append(append([]byte{}, enc...), 0xAA, 0xBB))
+		if derr != nil || len(drem) != 2 || d.KeysAndCert == nil {
+			return fmt.Errorf("ReadDestination rejected a well-formed identity (sig %d, enc %d): %v (remainder %d)", st, et, derr, len(drem))
+		}
+		if err := verify("ReadDestination", d.KeysAndCert); err != nil {
+			return err
+		}
+		if st != 11 {
+			ri, rrem, rerr := router_identity.ReadRouterIdentity(append(append([]byte{}, enc...), 0xAA, 0xBB))
+			if rerr != nil || len(rrem) != 2 || ri == nil || ri.KeysAndCert == nil {
+				return fmt.Errorf("ReadRouterIdentity rejected a well-formed identity (sig %d, enc %d): %v (remainder %d)", st, et, rerr, len(rrem))
+			}
+			if err := verify("ReadRouterIdentity", ri.KeysAndCert); err != nil {
+				return err
+			}
+		}
+		r.Class("wrapper-readers")
+	}
+	// a value whose exported key field was exchanged for a key of another length: the
+	// accessors return keys of the declared length or an error, never the foreign key
+	if id.Cert.Type == 5 {
+		foreignEnc := map[int]int{0: 4, 4: 0, 5: 0, 6: 0, 7: 0}[id.EncType]
+		if fk, ferr := libkeys.PubKey(foreignEnc, map[int][]byte{0: model.ElgPub(3), 4: model.Fill(32, 3)}[foreignEnc]); ferr == nil && fk.Len() != cs {
+			mixed := *k
+			mixed.ReceivingPublic = fk
+			if pk, perr := mixed.PublicKey(); perr == nil && pk != nil && pk.Len() != mixed.KeyCertificate.CryptoSize() {
+				return fmt.Errorf("KeysAndCert.PublicKey() returns a %d-byte key without error although the certificate declares %d bytes (field exchanged by the caller)", pk.Len(), mixed.KeyCertificate.CryptoSize())
+			}
+		}
+		foreignSig := map[int]int{0: 7, 1: 7, 2: 7, 7: 0, 8: 0, 11: 0}[id.SigType]
+		if fs, ferr := libkeys.SigPub(foreignSig, model.NewSignKey(foreignSig, 9).Pub); ferr == nil && fs.Len() != ss {
+			mixed := *k
+			mixed.SigningPublic = fs
+			if sk, serr := mixed.SigningPublicKey(); serr == nil && sk != nil && sk.Len() != mixed.KeyCertificate.SigningPublicKeySize() {
+				return fmt.Errorf("KeysAndCert.SigningPublicKey() returns a %d-byte key without error although the certificate declares %d bytes (field exchanged by the caller)", sk.Len(), mixed.KeyCertificate.SigningPublicKeySize())
+			}
+		}
+		r.Class("exchanged-key-field")
 	}
 	// constructor path (KEY certificates only)
 	if id.Cert.Type == 5 {
